@@ -120,6 +120,7 @@ def check(items, data, events=None, escaped=None):
                 nxt = {}
                 for st in states:
                     spans = []
+                    opened = {}
                     ok = True
                     for cpath, limit in group:
                         tail = cpath.rsplit(".", 1)[-1]
@@ -132,16 +133,21 @@ def check(items, data, events=None, escaped=None):
                             why = "warning %d reports region %s whose size field was never emitted" % (i, cpath)
                             break
                         spans.append((s, s + limit))
+                        opened[s + limit] = max(opened.get(s + limit, -1), st.after.get(cpath, s))
                     if not ok:
                         continue
                     for e in admissible_ends(spans):
                         if e >= st.pos:
                             c = st.fork(e)
-                        elif st.base >= e:
+                        elif st.base >= e and e <= opened.get(e, -1):
+                            # the declared end was already behind the decoder when the size field had just been read (a
+                            # commandSize smaller than its own header): nothing to skip, decoding goes on where it is.  A
+                            # field consumed across an end that still lay ahead is a different matter - no field's bytes may
+                            # come from behind the end a size field declares
                             c = st.fork(st.pos)
                         else:
-                            why = ("warning group at event %d: region with declared end %d is reported at position %d, which an earlier "
-                                   "skip reached by crossing that end (fields were consumed only up to %d)" % (i, e, st.pos, st.base))
+                            why = ("warning group at event %d: region with declared end %d is reported at position %d - reached by a skip "
+                                   "that crossed that end or by fields whose bytes lie behind it (fields were consumed up to %d)" % (i, e, st.pos, st.base))
                             continue
                         nxt.setdefault(c.key(), c)
                 if not nxt:
